@@ -414,17 +414,59 @@ func ruleDial(c *Ctx) {
 				}
 				return false
 			}
+			// isVerdict: v is validator(dialed IP of addr) with a validator accepted by okVal — directly, or through a helper
+			// validate(address, validator) all of whose returns are that verdict on its own parameters
+			var isVerdict func(v ssa.Value, addr ssa.Value, okVal func(ssa.Value) bool, d int) bool
+			isVerdict = func(v ssa.Value, addr ssa.Value, okVal func(ssa.Value) bool, d int) bool {
+				call, ok := v.(*ssa.Call)
+				if !ok || d > 3 {
+					return false
+				}
+				if isIPValidatorCall(call) {
+					return okVal(call.Call.Value) && addr != nil && isDialedIP(call.Call.Args[0], addr, 0)
+				}
+				h := call.Call.StaticCallee()
+				if h == nil || !p.InRepo(h) || len(h.Blocks) == 0 || h.Signature.Results().Len() != 1 || len(call.Call.Args) != len(h.Params) {
+					return false
+				}
+				ai := -1
+				for i, a := range call.Call.Args {
+					if addr != nil && p.Resolve(a) == addr {
+						ai = i
+					}
+				}
+				if ai < 0 {
+					return false
+				}
+				inner := func(x ssa.Value) bool {
+					pa, isP := p.Resolve(x).(*ssa.Parameter)
+					if !isP {
+						return false
+					}
+					for j, q := range h.Params {
+						if q == pa {
+							return okVal(call.Call.Args[j])
+						}
+					}
+					return false
+				}
+				n := 0
+				for _, r := range eng.Returns(h) {
+					n++
+					g, _ := p.AllFrom(r.Results[0], eng.Plain, func(x ssa.Value) bool { return isVerdict(x, h.Params[ai], inner, d+1) })
+					if !g {
+						return false
+					}
+				}
+				return n > 0
+			}
 			for i, r := range eng.Returns(ctl) {
+				var addrV ssa.Value
+				if addrP != nil {
+					addrV = addrP
+				}
 				good, bad := p.AllFrom(r.Results[0], eng.Plain, func(v ssa.Value) bool {
-					call, ok := v.(*ssa.Call)
-					if !ok || !isIPValidatorCall(call) {
-						return false
-					}
-					// the validator applied is RequirePublicIP
-					if !isRP(call.Call.Value) {
-						return false
-					}
-					return addrP != nil && isDialedIP(call.Call.Args[0], addrP, 0)
+					return isVerdict(v, addrV, isRP, 0)
 				})
 				c.CheckAt("DIAL", fmt.Sprintf("%s:return#%d-is-RequirePublicIP(ParseIP(host of address))", short(ctl), i), r, good, "the Control hook of the default dialer can return something other than RequirePublicIP's verdict on the IP of the address being connected (e.g. nil, another validator, or a verdict on a different string): "+valsStr(p, bad))
 			}
